@@ -1,5 +1,5 @@
 """C06 — outputs do not depend on --threads, PYTHONHASHSEED, --high_memory / --keep_tmp or repetition."""
-import os, sys, shutil, tempfile, types, json, gzip, re, itertools, copy, io
+import os, sys, shutil, tempfile, types, json, gzip, re, itertools, copy, io, traceback
 from concurrent.futures import ThreadPoolExecutor
 from lib import *
 from props.c10 import cs, css, snap, diff_files, write_bam, PRE, index_fasta, plain_fasta, SEED_WRAPPER
@@ -264,10 +264,10 @@ def sweep(ctx, quick):
 def run(ctx):
     quick = ctx.tier == "quick"
     ctx.prepare("C06.v")
-    merge_unit(ctx, quick)
-    part_names(ctx, quick)
-    feature_counter(ctx, quick)
-    sweep(ctx, quick)
+    for section in (merge_unit, part_names, feature_counter, sweep):
+        # one failing adapter must not keep the other sections (in particular the sweep) from looking for a concrete failing configuration
+        try: section(ctx, quick)
+        except Exception: ctx.broken("harness:%s" % section.__name__, "exception in section %s:\n%s" % (section.__name__, traceback.format_exc()[-3000:]))
     ctx.assume.append("PARTIAL: that no set other than the read-group set (C09, repaired) and the gene set of a feature row is enumerated on an output path rests on a scan of every set / dict "
                       "iteration in src/ and on the hash-seed sweep, not on a theorem; likewise that the carried state of a worker process is exactly detected_known_isoforms, the two id "
                       "counters and the duplicate counter (log only) rests on the scan of class attributes / module globals and on the runs with pre-seeded state in C10")
